@@ -102,6 +102,21 @@ Section Proofs.
       Forall (fun p => pair_truthy p = true) (removelast (upto_falsy ps)).
   Proof. split; [apply and_chain_log | apply upto_falsy_prefix]. Qed.
 
+  (** the operand pairs the model compares are the meaning of the script it generates *)
+  Lemma eq_operands_is_script_l attrs (x y : inst val) :
+    eq_operands attrs x y = script_operands val keyf (make_eq_script attrs) x y.
+  Proof. unfold Model.eq_operands, script_operands, make_eq_script. now rewrite map_map. Qed.
+
+  Lemma gen_eq_is_script_l attrs (x y : inst val) :
+    i_cls y = i_cls x ->
+    gen_eq attrs x (OInst y) =
+      (RV (fst (and_chain (script_operands val keyf (make_eq_script attrs) x y))),
+       snd (and_chain (script_operands val keyf (make_eq_script attrs) x y))).
+  Proof.
+    intros Hc. unfold Model.gen_eq. rewrite Hc, Nat.eqb_refl, <- eq_operands_is_script_l.
+    destruct (and_chain (eq_operands attrs x y)); reflexivity.
+  Qed.
+
   (** *** eq_iff *)
   Definition res_truthy (r : pyres) : bool := match r with RNotImpl => false | RV o => truthy o end.
 
